@@ -29,14 +29,14 @@ TECH["C08"]="rapid property-based testing of cross-language calls: emitted TypeS
 TEXT={
  "C12":("Generated-input search: every rule x placement cell of the documented catalogue is injected into rapid-drawn valid schemas and judged at the process boundary of the real plugins; the converse is checked on every base schema. Exploration, not proof: cells are enumerated, surroundings sampled.","§5 C12"),
  "C14":("Differential property test over rapid-drawn schemas: byte identity of same-named files, plus behavioural equality of server-only and client-only builds on generated values. Exploration.","§5 C14"),
- "C15":("Metamorphic property test: the same schema is generated under rerun / GOMAXPROCS / extra files / multi-package / permuted order / parameter spelling variations, outputs must be byte-identical. Map-order nondeterminism is sampled with fresh processes. Exploration.","§5 C15"),
+ "C15":("Metamorphic property test: the same schema is generated under rerun / GOMAXPROCS / extra files / multi-package / permuted order / each file alone vs all files together / parameter spelling variations, outputs must be byte-identical. Map-order nondeterminism is sampled with fresh processes. Exploration.","§5 C15"),
  "C16":("Generated degenerate descriptor sets (cycles, depth, width, long names, WKTs, empty services, missing go_package) x parameters; each plugin process must answer within 20 s / 2 GiB without panic. Bounded observation of termination, not a liveness proof.","§5 C16"),
 }
 TEXT.update({
  "C01":("Batches of rapid-drawn schemas are compiled and linked with a generic engine; for every RPC rapid draws request/response values (reserved URL characters, extremes, presence states) and a content type, the generated client calls the generated server, and request/response equality is checked. Exploration with shrinking of values; schemas are sampled.","§5 C01"),
  "C04":("For every message type of rapid-drawn schemas the emitted MarshalJSON/UnmarshalJSON (or protojson, as dispatched by the generated code) must round-trip drawn values and accept the reference model's contract form. Exploration.","§5 C04"),
  "C05":("The generated server is driven over HTTP with model-encoded bodies; handler-visible requests and response bodies are compared tree-by-tree with the reference model M. Exploration over schemas x values; M is an independent implementation of the documented mapping.","§5 C05, Appendix A"),
- "C13":("Every emitted package (go-http only, go-client only, both; with and without mock) is built and vetted with the analyzers go test runs; every emitted .ts module is imported in Node 22. Exploration over a compile matrix of annotation x cardinality x naming.","§5 C13"),
+ "C13":("Every emitted package (go-http only, go-client only, both; with and without mock) is built and vetted with the analyzers go test runs; every emitted .ts module is imported in Node 22. Exploration over a compile matrix of annotation x cardinality x naming, half of the schemas being minimal single-construct files (what a rich file masks), with free-text values containing quotes, backslashes and line breaks.","§5 C13"),
 })
 TEXT["C02"]=("For every RPC with URL-bound fields rapid draws request lines (valid / invalid / grey URL values per kind, encodings, missing parameters) x bodies x content types; the handler-visible request or the 400 ValidationError is compared with a reference binder written from the documented contract. Exploration with value shrinking.","§5 C02")
 TEXT["C09"]=("For every RPC with declared headers rapid draws header value sets (absent, empty, must-accept, must-reject, grey per type/format) and body validity; dispatch / 400-with-one-violation-per-offender is judged by a reference validator H. Exploration with shrinking.","§5 C09")
